@@ -15,6 +15,8 @@ def steps_from_acts(acts):
             steps.append({"k": "req", "req": a["req"], "types": sorted(a.get("types", []) or []), "label": a.get("label", "") or ""})
         elif k == "label":
             steps.append({"k": "label", "label": a["label"]})
+        elif k == "rmrun":
+            steps.append({"k": "rmrun"})
         elif k == "block":
             steps.append({"k": "block", "ext": a.get("ext", []) or [], "drop": a.get("drop", 0), "len": 0})
     return steps
@@ -42,6 +44,10 @@ def model_and_traces(ctx, prefixes):
             {"k": "req", "req": "START", "types": ["OFF"]}, {"k": "block", "ext": [], "drop": 0},
             {"k": "req", "req": "PAUSE"}, {"k": "req", "req": "STOP"},
             {"k": "req", "req": "START", "types": ["OFF"]}, {"k": "block", "ext": [1], "drop": 1}]})
+    rce = vlib.run_tlc(ctx, "WriteControl", "WriteControlCountEntries.cfg", workers=8, timeout=900)
+    if rce.violated:   # design variant: run number = number of entries; its shortest failing history is replayed on the code
+        scens.append(scen_from_cex(rce, nchan=1))
+        scens[-1]["origin"] = "variant:CountEntries"
     nsim = 30 if q else 1500
     rs = vlib.run_tlc(ctx, "WriteControlSim", "WriteControlSim.cfg", workers=1, simulate="num=%d" % nsim, depth=15)
     seen = {}
